@@ -1425,24 +1425,23 @@ Lemma mu_step_run s : (mu (do_step_run s) < mu s)%nat \/ do_step_run s = s.
 Proof.
   unfold do_step_run. destruct (runt s) as [x|] eqn:Er; auto.
   assert (Hrf : forall s1, tasks s1 = tasks s -> alive s1 = alive s ->
-                           (pe_n (pending_exit s1) <= pe_n (pending_exit s))%nat ->
-                           (4 <= rank_r (runt s) + pe_n (pending_exit s) - pe_n (pending_exit s1))%nat ->
+                           (pe_n (pending_exit s1) + 4 <= rank_r (runt s) + pe_n (pending_exit s))%nat ->
                            (mu (run_finish s1) < mu s)%nat).
-  { intros s1 Et Ea Hp Hr. unfold mu. rewrite tasks_run_finish, Et.
+  { intros s1 Et Ea Hr. unfold mu. rewrite tasks_run_finish, Et.
     pose proof (sc_run_finish s1). unfold sc at 2. rewrite Ea in *. lia. }
   destruct x.
   - left. destruct (run_arg s).
     + unfold mu, sc. simpl. rewrite Er. simpl. lia.
-    + apply Hrf; auto. rewrite Er. simpl. lia.
+    + apply Hrf; auto. rewrite Er. cbn [rank_r]. lia.
   - left. simpl. destruct (run_arg s).
     + unfold mu, sc. simpl. rewrite Er. simpl. lia.
-    + apply Hrf; auto. rewrite Er. simpl. lia.
+    + apply Hrf; auto. rewrite Er. cbn [rank_r]. simpl. lia.
   - left. unfold mu, sc. simpl. rewrite Er. simpl. lia.
   - destruct (run_call_pending s); auto. destruct (pending_exit s) as [o|] eqn:Epe; auto.
     left. simpl. destruct (run_arg s).
     + unfold mu, sc. simpl. rewrite Er, Epe. simpl. lia.
-    + apply Hrf; auto; simpl; rewrite ?Er, ?Epe; simpl; lia.
-  - left. apply Hrf; auto. rewrite Er. simpl. lia.
+    + apply Hrf; auto. rewrite Er, ?Epe. simpl. lia.
+  - left. apply Hrf; auto. rewrite Er. cbn [rank_r]. lia.
   - left. unfold mu, sc. simpl. rewrite Er. simpl. lia.
   - left. unfold mu, sc. simpl. rewrite Er. simpl. lia.
 Qed.
